@@ -72,8 +72,18 @@ func (e *Engine) ExportImport() (src, dst []chain.KV, gs *ct.GenesisState, err e
 	dst = e.C.Dump(ct.StoreKey)
 	em, mi, bu, ac := e.M.Emitted, e.M.Minted, e.M.Burned, e.M.AcceptedBurnMsg
 	hadPending, pend := e.M.HasPending, e.M.Pending
+	before := e.M
 	e.M = e.Observe()
 	e.M.Emitted, e.M.Minted, e.M.Burned, e.M.AcceptedBurnMsg = em, mi, bu, ac
+	e.Rc.Cov.Assert("export-import.semantic-state-preserved")
+	for _, df := range compareStates(before, e.M) {
+		props := append([]string{"C17"}, compProps[df.Comp]...)
+		sig := "export-import-diff:" + df.Comp
+		if df.Comp == "pending-owner" {
+			sig = "C17:raw-roundtrip:lost-key:pending-owner" // the recorded known finding (same defect seen semantically)
+		}
+		e.viol(props, "export-import/semantic", sig, fmt.Sprintf("after export -> import into an empty chain the observable %s differs: %s", df.Comp, df.Detail), nil)
+	}
 	_ = hadPending
 	_ = pend
 	e.Start, e.Producers = e.M.NextNonce, 0
